@@ -481,6 +481,24 @@ class Interp:
             # pointwise loop rule over a symbolic sequence
             it.pyvc_foreach(self, s, env)
             return
+        if hasattr(it, "pyvc_comprehension") and not s.orelse and len(s.body) == 1:
+            # the accumulation loop  `for x in it: acc.append(e)`  with acc == [] before the loop is the comprehension
+            # `acc = [e for x in it]`
+            b = s.body[0]
+            if isinstance(b, ast.Expr) and isinstance(b.value, ast.Call) and isinstance(b.value.func, ast.Attribute) and b.value.func.attr == "append" and isinstance(b.value.func.value, ast.Name) and len(b.value.args) == 1 and not b.value.keywords:
+                acc_name = b.value.func.value.id
+                try:
+                    acc = env.get(acc_name, self)
+                except Exception:
+                    acc = None
+                if isinstance(acc, list) and not acc:
+                    def elt_fn(item):
+                        sub = Env(env)
+                        self.assign(s.target, item, sub)
+                        return self.ev(b.value.args[0], sub)
+
+                    self.assign(ast.Name(id=acc_name, ctx=ast.Store()), it.pyvc_comprehension(self, elt_fn), env)
+                    return
         if isinstance(it, V):
             raise Undecided(f"for-loop over a symbolic array at line {s.lineno} (no loop rule)")
         try:
@@ -1005,6 +1023,22 @@ class Interp:
         raise Undecided(f"call of non-callable {fn!r} at line {getattr(node, 'lineno', '?')}")
 
     def ex_ListComp(self, e, env):
+        if len(e.generators) == 1 and e.generators[0].ifs and isinstance(e.elt, ast.Name) and isinstance(e.generators[0].target, ast.Name) and e.elt.id == e.generators[0].target.id:
+            # [x for x in it if c(x)]  is  list(filter(lambda x: c(x), it))
+            it = self.ev(e.generators[0].iter, env)
+            if hasattr(it, "pyvc_filter"):
+                g = e.generators[0]
+
+                def cond_fn(item):
+                    sub = Env(env)
+                    self.assign(g.target, item, sub)
+                    r = None
+                    for c in g.ifs:
+                        v = self.ev(c, sub)
+                        r = v if r is None else _and(r, v)
+                    return r
+
+                return it.pyvc_filter(cond_fn)
         if len(e.generators) == 1 and not e.generators[0].ifs:
             it = self.ev(e.generators[0].iter, env)
             if hasattr(it, "pyvc_comprehension"):
